@@ -215,7 +215,7 @@ PROPS = {
         ],
     },
     "C11": {
-        "lean_modules": ["TableauVerif.Props.C11"],
+        "lean_modules": ["TableauVerif.Props.C11", "TableauVerif.Props.C11Union"],
         "oracles": ["c11.merge", "c11.spec"],
         "streams": [
             ("e2e.C11.merge", 400, 20000, 8),
